@@ -300,7 +300,7 @@ def exact_prob(num, L):
     return ring.to_complex(num).real / L
 
 
-def check_read(c, ev, res, spec_c, order):
+def check_read(c, ev, res, spec_c, order, M=None):
     """execute the read action ev on circuit c and compare with the specification's result `res`.
     returns list of (clause, detail)"""
     from lightworks import emulator as emu
@@ -324,7 +324,7 @@ def check_read(c, ev, res, spec_c, order):
         return st
 
     try:
-        out += _check_read(c, ev, res, spec_c, order, name, a, ins, expect_ok, flt, P, state)
+        out += _check_read(c, ev, res, spec_c, order, name, a, ins, expect_ok, flt, P, state, M)
     finally:
         pass
     for st, orig in made:
@@ -333,7 +333,7 @@ def check_read(c, ev, res, spec_c, order):
     return out
 
 
-def _check_read(c, ev, res, spec_c, order, name, a, ins, expect_ok, flt, P, state):
+def _check_read(c, ev, res, spec_c, order, name, a, ins, expect_ok, flt, P, state, M=None):
     from lightworks import emulator as emu
     out = []
     try:
@@ -349,7 +349,26 @@ def _check_read(c, ev, res, spec_c, order, name, a, ins, expect_ok, flt, P, stat
                 if abs(got[o] - exp[o]) > TOL:
                     out.append(("amplitude", "amplitude %s -> %s is %s, exact value %s" % (ins, o, got[o], exp[o])))
                     break
-            # indexing paths of the result (C17 is checked separately; here only the amplitudes matter)
+            # several inputs at once, explicit outputs in a different order: the same amplitudes must come back
+            if expect_ok and len(exp) >= 2:
+                outs_sorted = sorted(exp, reverse=True)
+                other = [o for o in outs_sorted if sum(o) == sum(ins)][:1]
+                ins2 = list(other[0]) if other and len(other[0]) == len(ins) else ins
+                try:
+                    r2 = emu.Simulator(c).simulate([state(ins2), state(ins)], outputs=[state(o) for o in outs_sorted])
+                    for j, o in enumerate(outs_sorted):
+                        if abs(r2.array[1, j] - exp[o]) > TOL:
+                            out.append(("amplitude", "simulate([%s, %s], outputs=...) gives %s -> %s = %s, exact value %s" % (ins2, ins, ins, o, r2.array[1, j], exp[o])))
+                            break
+                except Exception as e:  # noqa: BLE001
+                    out.append(("read_raised/simulate/%s" % type(e).__name__, "simulate with two inputs and explicit outputs raised %s: %s" % (type(e).__name__, e)))
+                # an invalid state that is NOT the first of the list must still be rejected
+                bad = ins + [0]
+                try:
+                    emu.Simulator(c).simulate([state(ins), state(bad)], outputs=[state(outs_sorted[0])])
+                    out.append(("input_not_rejected", "simulate([valid, %s]) accepted an input of the wrong length in second position" % (bad,)))
+                except Exception:  # noqa: BLE001
+                    pass
         elif name == "sdist":
             L, table = res
             table = table if isinstance(table, dict) else {}
@@ -403,6 +422,39 @@ def _check_read(c, ev, res, spec_c, order, name, a, ins, expect_ok, flt, P, stat
             if abs(r.performance - sum(exp.values())) > 1e-8:
                 out.append(("performance", "performance %.9g, expected mean accepted total %.9g" % (r.performance, sum(exp.values()))))
             # error rate against the first accepted output as the expected one
+            # several inputs in ONE call: performance is the mean accepted total, the error rate the mean of the per-input rates
+            if M is not None and sum(ins) >= 1:
+                from .. import ev_reads as er
+                lossy = any(o_[0] == "loss" for o_ in _flat(spec_c["ops"]))
+                ins_b = list(reversed(ins))
+                if ins_b == list(ins):
+                    ins_b = ins_b[1:] + ins_b[:1]
+                if ins_b != list(ins):
+                    tb = er.analyzer_table(spec_c, M, tuple(ins_b), a[1], lossy)
+                    ta_, tb_ = sum(exp.values()), sum(tb.values())
+                    if tb and ta_ > 1e-9 and tb_ > 1e-9:
+                        ea, eb = sorted(exp)[0], sorted(tb)[0]
+                        rm = an.analyze([state(ins), state(ins_b)], expected={state(ins): lw.State(list(ea)), state(ins_b): lw.State(list(eb))})
+                        perf = (ta_ + tb_) / 2
+                        err = ((1 - exp[ea] / ta_) + (1 - tb[eb] / tb_)) / 2
+                        if abs(rm.performance - perf) > 1e-8:
+                            out.append(("performance", "two inputs: performance %.9g, expected mean accepted total %.9g" % (rm.performance, perf)))
+                        if abs(rm.error_rate - err) > 1e-8:
+                            out.append(("error_rate", "two inputs %s, %s: error_rate %.9g, expected mean of per-input rates %.9g" % (ins, ins_b, rm.error_rate, err)))
+                        for i_, (inx, tab) in enumerate(((ins, exp), (ins_b, tb))):
+                            for j, o in enumerate(rm.outputs):
+                                if abs(rm.array[i_, j] - tab.get(tuple(o.s), 0.0)) > 1e-8:
+                                    out.append(("analyzer", "two inputs: P(%s -> %s) = %.9g, expected %.9g" % (inx, tuple(o.s), rm.array[i_, j], tab.get(tuple(o.s), 0.0))))
+                                    break
+            # the same rule set given as a FUNCTION must give the same table
+            if a[1]:
+                rules = sorted(a[1])
+                an2 = emu.Analyzer(c)
+                an2.post_selection = lambda s_, rules=rules: all(sum(s_[m] for m in modes) in counts for modes, counts in rules)
+                rl = an2.analyze(state(ins))
+                gl = {tuple(o.s): rl.array[0, j] for j, o in enumerate(rl.outputs)}
+                if set(gl) != set(exp) or any(abs(gl[o] - exp[o]) > 1e-8 for o in exp):
+                    out.append(("analyzer", "post-selection given as a function gives a different table than the equivalent rule set"))
             first = sorted(exp)[0]
             tot = sum(exp.values())
             if tot > 1e-9 and len(exp) >= 3:
@@ -529,6 +581,34 @@ def non_adjacent_bs(spec):
     return False
 
 
+def structure(c):
+    """the component list itself (types, modes, values, parameter identities, nesting) - what a read-only call must leave alone"""
+    import dataclasses
+    import numpy as np
+    from lightworks.sdk.circuit.components import Group
+
+    def val(v):
+        if isinstance(v, np.ndarray):
+            return ("arr", v.shape, v.tobytes())
+        if isinstance(v, lw.Parameter):
+            return ("par", id(v), repr(v.get()))
+        if isinstance(v, dict):
+            return tuple(sorted((repr(k), val(x)) for k, x in v.items()))
+        if isinstance(v, (list, tuple)):
+            return tuple(val(x) for x in v)
+        return repr(v)
+
+    def walk(spec):
+        out = []
+        for comp in spec:
+            if isinstance(comp, Group):
+                out.append(("Group", comp.name, comp.mode_1, comp.mode_2, val(comp.heralds), walk(comp.circuit_spec)))
+            else:
+                out.append((type(comp).__name__,) + tuple((f.name, val(getattr(comp, f.name))) for f in dataclasses.fields(comp)))
+        return tuple(out)
+    return walk(c._Circuit__circuit_spec if hasattr(c, "_Circuit__circuit_spec") else c._get_circuit_spec())
+
+
 def replay(prog, objs, expected_circ=None, expected_sem=None, params=NOPARAMS, pval=None, numeric=False):
     """Step a program through real objects.
     Returns list of findings: (clause, step_index, detail).  Clauses:
@@ -542,6 +622,7 @@ def replay(prog, objs, expected_circ=None, expected_sem=None, params=NOPARAMS, p
         nspec = None
         if ev[1] == "compress":
             nspec = len(objs[ev[2]]._get_circuit_spec())
+        struct0 = {o: structure(c) for o, c in objs.items()} if ev[1] == "display" else None
         try:
             apply_event(objs, ev, params)
             raised = None
@@ -574,6 +655,10 @@ def replay(prog, objs, expected_circ=None, expected_sem=None, params=NOPARAMS, p
             continue
         if ev[1] == "display" and before[tgt] != after[tgt]:
             out.append(("display_changed", i, "display %s changed the circuit" % (ev,)))
+        if ev[1] == "display" and struct0 is not None:
+            for o in struct0:
+                if o in objs and structure(objs[o]) != struct0[o]:
+                    out.append(("display_changed", i, "display %s changed the component list of object %d" % (ev, o)))
         for o in before:
             if o != tgt and before[o] != after[o]:
                 out.append(("arg_mutated", i, "call %s changed object %d (not its target)" % (ev, o)))
@@ -618,7 +703,7 @@ def replay_read(prog, objs, expected_circ, sem_np, res):
     before = {o: snapshot(c) for o, c in objs.items()}
     if ev[0] == "ok" and sem_np is not None and isinstance(res, (dict, tuple)) and res != ():
         CALIB[0] = max(CALIB[0], calibrate_reads(ev, res, sc, sem_np))
-    for clause, detail in check_read(objs[t], ev, res, sc, order):
+    for clause, detail in check_read(objs[t], ev, res, sc, order, sem_np):
         out.append((clause, len(prog) - 1, detail))
     after = {o: snapshot(c) for o, c in objs.items()}
     for o in before:
